@@ -19,7 +19,10 @@ ROOT = os.path.dirname(os.path.dirname(os.path.abspath(__file__)))
 def run_one(m, keep=False, tier='quick'):
     d = tempfile.mkdtemp(prefix='pyvc-mut-', dir='/var/tmp')
     try:
-        shutil.copytree('/repo/elfi', os.path.join(d, 'elfi'), ignore=shutil.ignore_patterns('__pycache__', '*.pyc', 'bdm'))
+        # PYVC_SELFTEST_BASE: tree the edits are applied to (default /repo); a scratch copy with candidate repairs makes
+        # kill/survive expectations meaningful for properties whose check already reports defects on the unchanged tree
+        shutil.copytree(os.path.join(os.environ.get('PYVC_SELFTEST_BASE', '/repo'), 'elfi'), os.path.join(d, 'elfi'),
+                        ignore=shutil.ignore_patterns('__pycache__', '*.pyc', 'bdm'))
         edits = m.get('edits') or [dict(file=m['file'], find=m['find'], replace=m['replace'])]
         for e in edits:
             p = os.path.join(d, e['file'])
